@@ -12,6 +12,7 @@ pub enum Case {
     Val(crate::val::Case),
     Mass(crate::mass::Case),
     Trn(crate::trn::Case),
+    Dsp(crate::dsp::Case),
 }
 
 impl Case {
@@ -22,10 +23,12 @@ impl Case {
             Case::Val(c) => c.hash_seed,
             Case::Mass(c) => c.hash_seed,
             Case::Trn(c) => c.hash_seed,
+            Case::Dsp(c) => c.hash_seed,
         }
     }
     pub fn size(&self) -> usize {
         match self {
+            Case::Dsp(c) => c.trains.len() * 10 + c.walk_plans as usize + c.trains.iter().map(|t| t.spec.consist.len() + t.spec.cars.len() + (t.depart != (t.depart / 100.0).round() * 100.0) as usize).sum::<usize>() + c.links.iter().map(|l| l.link_idxs_lockout.len() + l.headings.len()).sum::<usize>(),
             Case::Trn(c) => c.crashes.len() + c.interval_changes.len() + c.route.len() * 4 + c.train.consist.len() + c.train.cars.len() + c.train.cars.iter().map(|x| (x.n as usize) / 8).sum::<usize>()
                 + match &c.kind { crate::trn::Kind::SetSpeed { trace, .. } => trace.len(), crate::trn::Kind::LimitManual { auths, .. } => 3 + auths.len() * 2, crate::trn::Kind::LimitTimed { .. } => 3, _ => 1 }
                 + c.route.iter().map(|l| { let l = &c.links[*l as usize]; l.elevs.len() + l.headings.len() + l.speed_set.as_ref().map(|s| s.speed_limits.len()).unwrap_or(0) }).sum::<usize>(),
@@ -69,7 +72,17 @@ const TRN_REAL: &[&str] = &["TrainSimBuilder, SetSpeedTrainSim, SpeedLimitTrainS
 const TRN_STUB: &[&str] = &["dispatcher -> train authority channel: simulated (early / just in time / late / batched / empty deliveries)", "clock: the simulator issues every step; dt per run in {0.5, 1, 2} s, irregular trace stamps for set-speed runs", "pyo3 layer / run_speed_limit_train_sims: not run"];
 const TRN_RULE: &str = "a case = generated network (0-3 sidings, grades up to the bound, 0-4 extra restrictions per link, very short to very long links) + route + generated train (1-3 car types, 5-150 cars, 2-6 units incl. generated ones, optional mass/length overrides) + driver (set-speed trace via shipped walk or simulator steps; speed-limited via shipped walk, walk_timed_path or simulator steps with an authority-delivery schedule) + crash/restore and interval-change points; distinct = distinct hash of (scenario class, fault kinds fired, probes hit); non-trivial = at least 5 (set-speed) / 20 (speed-limited) executed steps";
 
+const DSP_REAL: &[&str] = &["make_est_times (real code, incl. thousands of SpeedLimitTrainSim steps per train)", "run_dispatch with its own scheduler, TrainDisp advance / rewind / free-path search / deadlock check (real code)", "observer hook H3/H4 reading link_disp_auths, links_blocked, TrainDisp views after every train move", "walk_timed_path protocol on the returned plans (sampled)"];
+const DSP_STUB: &[&str] = &["the dispatcher's scheduler is NOT replaced: its schedule space is sampled through departure times (incl. ties), train order, lengths, directions, topology and lockouts", "no fault is injected into the dispatcher (it has no I/O); its own rewinds / re-routes are the fault-like events, counted by probes"];
+const DSP_RULE: &str = "a case = generated corridor (0-5 sidings that fit / do not fit the trains, optional lockout declarations) + 1-10 generated trains in both directions with departure times incl. ties; distinct = distinct hash of (scenario class, probes hit, the sequence of (train, outcome) moves the dispatcher made); non-trivial = at least 2 trains";
+
 pub const PROPS: &[PropInfo] = &[
+    PropInfo { id: "C04", world: "dsp", level: "exploration", quick_runs: 700, thorough_runs: 40_000, rule: DSP_RULE, real: DSP_REAL, stub: DSP_STUB,
+        assumptions: &["times compared with 1e-6 s, offsets with 1e-6 m of slack", "an authority's window starts at its first-seen arrive_entry (the dispatcher shrinks it when a train exits)", "scenarios whose est-time construction fails are discarded and counted (discarded.setup.*)"] },
+    PropInfo { id: "C05", world: "dsp", level: "exploration", quick_runs: 700, thorough_runs: 40_000, rule: DSP_RULE, real: DSP_REAL, stub: DSP_STUB,
+        assumptions: &["memory safety is decided at the level 'no out-of-range unchecked access on any explored history' (std unsafe-precondition checks live in the debug-assertions build)", "free-running time per pair of consecutive dispatch nodes read from the train's own EstTimeNet (DESIGN C05)"] },
+    PropInfo { id: "C15", world: "dsp", level: "exploration", quick_runs: 500, thorough_runs: 30_000, rule: DSP_RULE, real: DSP_REAL, stub: DSP_STUB,
+        assumptions: &["weak fit for this technique (DESIGN 5): the est-time network is a pure function of (train, network); checked where it is handed to the dispatcher", "all start-to-end walks are sampled (24 seeded walks per graph with alternatives)"] },
     PropInfo { id: "C03", world: "trn", level: "exploration", quick_runs: 1200, thorough_runs: 60_000, rule: TRN_RULE, real: TRN_REAL, stub: TRN_STUB,
         assumptions: &["grade bound 0.8 % and dt in {0.5, 1, 2} s are domain parameters", "a timed walk's internal extension times are not observable: posted limits are evaluated over the path as it ended up", "bounded liveness is stated only after the last authority has been delivered and the last injected fault has fired"] },
     PropInfo { id: "C07", world: "trn", level: "exploration", quick_runs: 1200, thorough_runs: 60_000, rule: TRN_RULE, real: TRN_REAL, stub: TRN_STUB,
@@ -127,6 +140,7 @@ pub fn generate(prop: &str, rng: &mut Rng, thorough: bool) -> Case {
         Some("val") => Case::Val(crate::val::generate(rng, prop, thorough)),
         Some("mass") => Case::Mass(crate::mass::generate(rng, prop, thorough)),
         Some("trn") => Case::Trn(crate::trn::generate(rng, prop, thorough)),
+        Some("dsp") => Case::Dsp(crate::dsp::generate(rng, prop, thorough)),
         _ => panic!("no world for property {prop}"),
     }
 }
@@ -138,6 +152,7 @@ pub fn execute(case: &Case, ctx: &mut Ctx) {
         Case::Val(c) => crate::val::execute(c, ctx),
         Case::Mass(c) => crate::mass::execute(c, ctx),
         Case::Trn(c) => crate::trn::execute(c, ctx),
+        Case::Dsp(c) => crate::dsp::execute(c, ctx),
     }
 }
 
@@ -146,13 +161,14 @@ pub fn shrink(case: &Case, v: &Violation) -> Vec<Case> {
         Case::Val(c) => crate::val::shrink(c, v).into_iter().map(Case::Val).collect(),
         Case::Mass(c) => crate::mass::shrink(c).into_iter().map(Case::Mass).collect(),
         Case::Trn(c) => crate::trn::shrink(c).into_iter().map(Case::Trn).collect(),
+        Case::Dsp(c) => crate::dsp::shrink(c).into_iter().map(Case::Dsp).collect(),
         Case::Pt(c) => crate::pt::shrink(c).into_iter().map(Case::Pt).collect(),
         Case::Trk(c) => crate::trk::shrink(c).into_iter().map(Case::Trk).collect(),
     }
 }
 
 /// which property a panic belongs to, decided by world, layer and panic location (None = unarmed event)
-pub fn panic_property(case: &Case, _layer: &str, location: &str) -> Option<&'static str> {
+pub fn panic_property(case: &Case, layer: &str, location: &str) -> Option<&'static str> {
     match case {
         Case::Pt(_) => {
             if location.contains("consist_utils.rs") || location.contains("utils/mod.rs") {
@@ -164,6 +180,20 @@ pub fn panic_property(case: &Case, _layer: &str, location: &str) -> Option<&'sta
         // building a path must never panic: speed-profile code -> C13, everything else in this world -> C06
         Case::Val(_) => Some("C16"),
         Case::Mass(_) => Some("C20"),
+        // by the layer the driver was in: est-time construction steps trains (C03), the graph code is C15's,
+        // everything inside run_dispatch is C05's ("never aborts on inputs accepted by validation and est-time construction")
+        Case::Dsp(_) => match layer {
+            "dispatch" | "abort" => Some("C05"),
+            "est-time-graph" => Some("C15"),
+            "train-stepping" => {
+                if location.contains("est_times") {
+                    Some("C15")
+                } else {
+                    Some("C03")
+                }
+            }
+            _ => None,
+        },
         // a train simulation ends with Ok or a descriptive error, never a panic (C03); panics in the split code belong to C10
         Case::Trn(_) => {
             if location.contains("consist_utils.rs") {
